@@ -101,7 +101,11 @@ pub fn migrate_step(
     let cfg_pre = sim.cfg.clone();
     sim.twin = None;
 
-    if let Some(v) = set_version {
+    if set_version.as_deref() == Some("<absent>") {
+        sim.chain.storage.data.remove(b"version_info".as_slice());
+    } else if set_version.as_deref() == Some("<garbage>") {
+        sim.chain.storage.data.insert(b"version_info".to_vec(), b"{not json".to_vec());
+    } else if let Some(v) = set_version {
         let def = book::read_version(&sim.chain.storage)
             .map(|x| x.0)
             .unwrap_or_else(|| "ats_smart_contract".to_string());
@@ -128,6 +132,9 @@ pub fn migrate_step(
             }
         }
     };
+    if band == "no_version" {
+        sim.cov.probe("migrate_without_readable_version_record");
+    }
     match band {
         "below_minimum" => sim.cov.probe("migrate_from_below_minimum"),
         "event_log_window" => sim.cov.probe("migrate_from_event_log_window"),
